@@ -47,6 +47,7 @@ def canon(v):
     if t is range: return "r[" + ",".join(["i%d" % x for x in v]) + "]"
     if t is float: return "f" + repr(v)
     if t is Mut: return "M(" + canon(v.ret) + ";" + canon(v.after) + ")"
+    if t is Alt: return "\x00OR\x00".join([canon(x) for x in v.alts])
     raise AssertionError("cannot canonicalise %r" % (v,))
 
 class Mut:
@@ -81,6 +82,7 @@ def srepr(v):
     if v is False: return "False"
     t = type(v)
     if t is int: return str(v)
+    if t is float: return repr(v)      # workload floats are short decimals whose repr coincides
     if t is str: return squote(v)
     if t is list: return "[" + ", ".join([srepr(x) for x in v]) + "]"
     if t is tuple:
@@ -136,13 +138,20 @@ def unpack_sub(args):
     end = args[2] if len(args) > 2 else None
     return x, start, end
 
-def classify_dev(S, x, start, got, nat):
+def classify_dev(S, x, start, end, got, nat):
+    """Where native Python (start/end passed through) differs from the spec reading "search S[start:end], add the
+    offset back": only for an EMPTY needle in a range that Python treats as non-existent but the spec's indexing
+    conventions turn into an empty substring (start beyond the end: clamped to n; start after end: empty slice).
+    The empty string occurs in the empty string, so the spec reading finds it at the clamped start."""
     if got == nat:
         return
     n = len(S)
     empty_needle = (x == "" or (type(x) is tuple and "" in x))
+    lo, hi, _ = slice(start, end).indices(n)
     if empty_needle and start is not None and start > n:
         dev("native_python_differs:empty_needle_start_beyond_end")
+    elif empty_needle and lo > hi:
+        dev("native_python_differs:empty_needle_start_after_end")
     else:
         dev("native_python_differs:UNEXPLAINED")
 
@@ -162,7 +171,7 @@ def str_search(name):
         else:
             res = r + lo
         nat = native_sub(S, pyname, x, start, end)
-        classify_dev(S, x, start, res, nat)
+        classify_dev(S, x, start, end, res, nat)
         if res is StarErr: raise StarErr("substring not found")
         return res
     return f
@@ -172,7 +181,7 @@ def str_count(S, args):
     if type(x) is not str: raise StarErr("want string")
     sub, lo = subrange(S, start, end)
     res = sub.count(x)
-    classify_dev(S, x, start, res, native_sub(S, "count", x, start, end))
+    classify_dev(S, x, start, end, res, native_sub(S, "count", x, start, end))
     return res
 
 def str_affix(name):
@@ -182,7 +191,7 @@ def str_affix(name):
         if type(x) is not str and type(x) is not tuple: raise StarErr("want string or tuple")
         sub, lo = subrange(S, start, end)
         res = getattr(sub, name)(x)
-        classify_dev(S, x, start, res, native_sub(S, name, x, start, end))
+        classify_dev(S, x, start, end, res, native_sub(S, name, x, start, end))
         return res
     return f
 
@@ -194,15 +203,37 @@ def list_index(L, args):
     sub, lo = subrange(L, start, end)
     return sub.index(x) + lo
 
+class Alt:
+    """More than one result is acceptable (the spec text admits more than one reading)."""
+    def __init__(self, *alts): self.alts = alts
+
 def str_split(name):
     def f(S, args):
         if len(args) > 2: raise StarErr("arity")
         sep = args[0] if len(args) > 0 else None
         if sep is not None and type(sep) is not str: raise StarErr("sep")
+        k = -1
         if len(args) > 1:
             want_int(args[1])
-            return getattr(S, name)(sep, args[1])
-        return getattr(S, name)(sep)
+            k = args[1]
+        nat = getattr(S, name)(sep, k)
+        if name == "rsplit" and sep is not None:
+            # spec string.rsplit: "splits a string into substrings like S.split, except that when a maximum number of
+            # splits is specified, rsplit chooses the rightmost splits."  Read literally: the split points are those of
+            # S.split(sep) and rsplit keeps the last k of them.  Python scans from the right instead; the two differ
+            # only when occurrences of sep overlap (",,,".rsplit(",,")).  Without a limit the spec says "like S.split";
+            # with a limit either reading of "the rightmost splits" is accepted.
+            parts = S.split(sep)
+            if k >= 0 and len(parts) - 1 > k:
+                cut = len(parts) - k
+                parts = [sep.join(parts[:cut])] + parts[cut:]
+            if parts != nat:
+                if k < 0:
+                    dev("spec_defined:rsplit_unlimited_is_split_for_overlapping_separator")
+                    return parts
+                dev("ambiguous:rsplit_limit_with_overlapping_separator")
+                return Alt(parts, nat)
+        return nat
     return f
 
 _PY_ONLY_LINE_BREAKS = set("\r\v\f\x1c\x1d\x1e\x85")
@@ -235,6 +266,10 @@ def str_strip(name):
         if len(args) > 1: raise StarErr("arity")
         if not args: return getattr(S, name)()
         if type(args[0]) is not str: raise StarErr("workload only passes strings")
+        # An empty cutset means "white space", as when the argument is omitted: the spec only says the
+        # parameter "specifies an alternative set of code points", and the repository's own corpus
+        # (starlark/testdata/string.star: " \tfoo\n ".strip("") == "foo") fixes this reading.
+        if args[0] == "": return getattr(S, name)()
         return getattr(S, name)(args[0])
     return f
 
@@ -323,7 +358,8 @@ def str_interp(S, args):
         if i >= n: raise StarErr("incomplete format")
         c = S[i]; i += 1
         # spec: "Starlark does not support the flag, width, and padding specifiers supported by Python's %"
-        if c not in _CONV: raise StarErr("unknown conversion")
+        # (the conversion table of the spec lists "%" itself: "%  none  literal percent sign", also after "(key)")
+        if c not in _CONV and not (c == "%" and key is not None): raise StarErr("unknown conversion")
         segs.append("".join(lit)); lit = []
         segs.append((key, c))
     segs.append("".join(lit))
@@ -357,7 +393,8 @@ def str_interp(S, args):
                 if index >= 1: raise StarErr("not enough arguments")
                 arg = x
             index += 1
-        if c == "s": out.append(sstr(arg))
+        if c == "%": out.append("%")
+        elif c == "s": out.append(sstr(arg))
         elif c == "r": out.append(srepr(arg))
         elif c in "dioxX":
             # spec: "It is an error if the argument does not have the type required ... A Boolean argument is not
@@ -486,6 +523,16 @@ def op_index(S, args):
         return S[j:j + 1]
     return S[i]
 
+def op_setitem(S, args):
+    i, v = args
+    want_int(i)
+    # spec Index expressions: "It is a dynamic error to attempt to update an element of an immutable type, such as a
+    # tuple or string"; the index obeys the same -n <= i < n rule.
+    if type(S) is not list: raise StarErr("immutable")
+    L = list(S)
+    L[i] = v
+    return Mut(None, L)
+
 def op_slice(S, args):
     a, b, c = args
     want_index(a); want_index(b); want_index(c)
@@ -505,7 +552,7 @@ def op_mul(x, args):
     raise StarErr("unsupported operand types")
 
 OPS = {
-    "index": op_index, "slice": op_slice, "add": op_add, "mul": op_mul, "interp": str_interp,
+    "index": op_index, "slice": op_slice, "setitem": op_setitem, "add": op_add, "mul": op_mul, "interp": str_interp,
     "m:find": str_search("find"), "m:rfind": str_search("rfind"), "m:index": str_search("index"), "m:rindex": str_search("rindex"),
     "m:count": str_count, "m:startswith": str_affix("startswith"), "m:endswith": str_affix("endswith"),
     "m:split": str_split("split"), "m:rsplit": str_split("rsplit"), "m:splitlines": str_splitlines,
